@@ -159,7 +159,8 @@ OnCall(e) ==
              clean |-> (ws = "running" /\ ctlPending = 0 /\ e.op \notin StateChanging),
              solo |-> (ctlPending = 0),
              quiet |-> (\A c \in Clients : pend[c].op \notin Opening),
-             ref |-> IF overlap \/ pcancel THEN "unknown" ELSE ref,
+             \* (a control call that begins while another one is in progress has no reference state: the machine is about call sequences)
+             ref |-> IF overlap \/ pcancel \/ (isCtl /\ ctlPending > 0) THEN "unknown" ELSE ref,
              same |-> (e.op = "TunePool" /\ concNow = {NormConc(e.n)}),
              entered |-> {j \in Jobs : enters[j] > exits[j]},
              rankFloor |-> IF e.job \in Jobs THEN rank[e.job] ELSE -1,
